@@ -688,6 +688,13 @@ def native_call(interp, f, args, kwargs):
             return f(*args, **kwargs)
         except (ValueError, TypeError, IndexError, KeyError):
             return "<formatted>"
+    nh = getattr(interp, "native_hooks", None)
+    if nh:
+        h = nh.get(id(f))
+        if h is None and getattr(f, "__self__", None) is not None:
+            h = nh.get((id(f.__self__), getattr(f, "__name__", "")))
+        if h is not None:
+            return h(interp, *args, **kwargs)       # contract-supplied abstraction of a library call (e.g. a random draw)
     from .spval import contains_spval, sp_native
     if contains_spval(args) or contains_spval(kwargs):
         r = sp_native(f, args, kwargs)
@@ -1648,6 +1655,7 @@ def install_numpy_models(interp):
         return np.argwhere(np.array(flat, dtype=bool).reshape(A.shape))
     register_model(np.argwhere, n_argwhere)
     register_model(np.flatnonzero, lambda interp, a: n_argwhere(interp, a).reshape(-1))
+    register_model(np.nonzero, lambda interp, a: (n_argwhere(interp, a).reshape(-1),) if np.asarray(a, dtype=object).ndim == 1 else tuple(n_argwhere(interp, a).T))
 
     def n_argsort(interp, a, *args, **kw):
         items = list(to_obj_array(a).reshape(-1).tolist())
